@@ -134,6 +134,7 @@ func TestC13(t *testing.T) {
 				format = model.YAML
 				sp.YAMLFlow = b("flow")
 				sp.YAMLBareKeys = b("barekeys")
+				sp.YAMLPlainStrings = b("plainstrings")
 			}
 			return sp, format, names
 		}
